@@ -725,6 +725,68 @@ func addManyParams(r *Rand, c *Case) {
 	cc.Steps = append(steps, cc.Steps[1:]...)
 }
 
+// genC08Cancel: the session context (derived by a middleware) ends in one
+// command; a later Bind/Execute on the same connection - if the server still
+// runs it - hands the statement function exactly the parameters that were sent.
+func genC08Cancel(r *Rand) *Case {
+	c := &Case{Variant: "session-cancelled-before-bind", Server: ServerCfg{Limit: 4096, MW: []MWSpec{{Cancel: true}}}, Programs: map[string]*Program{}}
+	c.Programs["c"] = &Program{Stmts: []*StmtProg{{Ops: []Op{{K: "complete", Tag: "C"}, {K: "cancel"}}}}}
+	c.Programs["k"] = &Program{Stmts: []*StmtProg{{Params: []uint32{pgwire.OIDText, pgwire.OIDInt4, pgwire.OIDText, pgwire.OIDText}, Ops: []Op{{K: "params"}, {K: "complete", Tag: "K"}}}}}
+	b := pgwire.FMsg{K: "B", S1: "p1", S2: "s1", PFmt: []int16{0, 1, 0, 0}, Params: []pgwire.Param{{V: []byte(r.Ident(r.Range(1, 12)))}, {V: []byte{0, 0, byte(r.Intn(256)), byte(r.Intn(256))}}, {Null: true}, {V: []byte{}}}}
+	if r.Bool() {
+		b.PFmt = nil
+		b.Params[1] = pgwire.Param{V: []byte(fmt.Sprint(r.Intn(100000)))}
+	}
+	parse := []pgwire.FMsg{{K: "P", S1: "s1", S2: "k"}, {K: "S"}}
+	run := []pgwire.FMsg{b, {K: "E", S1: "p1"}, {K: "S"}}
+	steps := []Step{{Msgs: []pgwire.FMsg{startupMsg("u", "d")}}}
+	if r.Bool() {
+		// the statement is parsed before the context ends, bound after
+		steps = append(steps, Step{Msgs: parse}, Step{Msgs: []pgwire.FMsg{{K: "Q", S1: "c"}}}, Step{Msgs: run})
+	} else {
+		steps = append(steps, Step{Msgs: []pgwire.FMsg{{K: "Q", S1: "c"}}}, Step{Msgs: append(parse, run...)})
+	}
+	c.Conns = []ConnCase{{Steps: steps, Cuts: genCuts(r)}}
+	return c
+}
+
+// checkC08Cancel compares what the statement function received with what it
+// receives in the same session when the context never ends (the reference run
+// of the real code): if it is called at all, its parameters are the same.
+func checkC08Cancel(x *Exec, c *Case) ([]Violation, bool) {
+	r := x.Run(c)
+	ref := c.Clone()
+	if p := ref.Programs["c"]; p != nil && len(p.Stmts) == 1 {
+		var ops []Op
+		for _, op := range p.Stmts[0].Ops {
+			if op.K != "cancel" {
+				ops = append(ops, op)
+			}
+		}
+		p.Stmts[0].Ops = ops
+	}
+	rr := x.Run(ref)
+	var viol []Violation
+	paramsOf := func(cs *connState) (string, bool) {
+		for _, e := range cs.Events {
+			if e.K == "op" && strings.Contains(e.S, " params ") {
+				return e.S, true
+			}
+		}
+		return "", false
+	}
+	if len(r.Conns) == 0 || len(rr.Conns) == 0 {
+		return nil, false
+	}
+	viol = append(viol, GrammarViolation("C08", 0, ParseOut(r.Conns[0]))...)
+	got, ran := paramsOf(r.Conns[0])
+	want, refRan := paramsOf(rr.Conns[0])
+	if ran && refRan && got != want {
+		viol = append(viol, Violation{Prop: "C08", Rule: "parameters-differ-after-session-cancel", Sig: "parameters-differ-after-session-cancel", Detail: fmt.Sprintf("conn 0: the session context had ended in an earlier command; the statement function bound and executed afterwards received %q, in the same session without that cancellation %q", got, want)})
+	}
+	return viol, ran
+}
+
 // genC13Overlap: connection A's COPY stream has ended (CopyDone) while A's
 // handler is still at work; in that window connection B starts a COPY of its
 // own, which its client aborts; then A's handler finishes. Each connection is
@@ -894,7 +956,7 @@ func init() {
 	// ------------------------------------------------------------------ C08
 	register(&Prop{
 		ID: "C08", Level: "exploration", QuickS: 25, ThoroughS: 420,
-		Rule:       "seeded extended-protocol histories over statements with 0-5 declared parameter types and typed columns: Bind messages with NULL / empty / NUL-containing / multi-KiB values, parameter-format lists of length 0, 1 and n, result-format lists of length 0, 1 and n, and 0-3 other messages (Describe, Parse of other names with long texts, simple queries, stray CopyData) between Bind and Execute; the statement function records count, Value(), Format() and Scan(declared oid) of every parameter; compared with the reference model and the independent codecs, including the RowDescription/DataRow formats of the portal and the ParameterDescription of the statement; 1 in 40 cases adds a $65535 statement bound with 65535/65534/32768 parameters under a 1 MiB limit; 1 case in 50 is a decoy (an int4-only session on a server whose ExtendTypes option re-registers text, varchar, timestamp and numeric: the cases that follow in the same process must not notice); the scan op asks every parameter again with another OID and compares with a fresh parameter holding the same bytes; non-trivial = a statement function ran with at least one parameter; distinct = distinct case content hashes",
+		Rule:       "seeded extended-protocol histories over statements with 0-5 declared parameter types and typed columns: Bind messages with NULL / empty / NUL-containing / multi-KiB values, parameter-format lists of length 0, 1 and n, result-format lists of length 0, 1 and n, and 0-3 other messages (Describe, Parse of other names with long texts, simple queries, stray CopyData) between Bind and Execute; the statement function records count, Value(), Format() and Scan(declared oid) of every parameter; compared with the reference model and the independent codecs, including the RowDescription/DataRow formats of the portal and the ParameterDescription of the statement; 1 in 40 cases adds a $65535 statement bound with 65535/65534/32768 parameters under a 1 MiB limit; variant session-cancelled-before-bind: the middleware-derived session context ends in one command, a statement bound and executed afterwards - if it runs - receives what the same session delivers without the cancellation; 1 case in 50 is a decoy (an int4-only session on a server whose ExtendTypes option re-registers text, varchar, timestamp and numeric: the cases that follow in the same process must not notice); the scan op asks every parameter again with another OID and compares with a fresh parameter holding the same bytes; non-trivial = a statement function ran with at least one parameter; distinct = distinct case content hashes",
 		Components: e1Components, Assumptions: commonAssumptions,
 		Gen: func(r *Rand, tier string) *Case {
 			if r.Chance(1, 10) {
@@ -904,6 +966,9 @@ func init() {
 			}
 			if r.Chance(1, 50) {
 				return genExtendDecoy(r)
+			}
+			if r.Chance(1, 40) {
+				return genC08Cancel(r)
 			}
 			c := &Case{Server: ServerCfg{Limit: r.PickInt(4096, 16384, 65536, 65536)}}
 			many := r.Chance(1, 40)
@@ -917,6 +982,9 @@ func init() {
 			return c
 		},
 		Check: func(x *Exec, c *Case) ([]Violation, bool) {
+			if c.Variant == "session-cancelled-before-bind" {
+				return checkC08Cancel(x, c)
+			}
 			if c.Sched != nil {
 				return checkConcurrent("C08", x, c, 2)
 			}
